@@ -132,7 +132,12 @@ func c20RunCount(cs c20Case) (class string, violation string, events []int) {
 	}
 	capt := kpx.NewCapture()
 	capt.FailSend = func(m p2pmsg.Message) error { return reject() }
-	cb := func(_ context.Context, k keyper.EonPublicKey) error {
+	cb := func(cctx context.Context, k keyper.EonPublicKey) error {
+		// the flavours' callbacks wait on the context they are given (select on
+		// ctx.Done(), transactions sent with ctx): a dead context is a failed hand-over
+		if err := cctx.Err(); err != nil {
+			return err
+		}
 		if err := reject(); err != nil {
 			return err
 		}
@@ -252,6 +257,7 @@ func c20() *report.Check {
 		Assumptions: []string{
 			"PostgreSQL semantics as implemented by minipg (47 of the repository's own database tests pass on it); single session",
 			"only eons of keyper sets the keyper belongs to are pending (the statement's precondition)",
+			"the publication mechanism honours the context it is called with (a cancelled or expired context makes the hand-over fail), as the flavours' callbacks and the p2p publish path do",
 		},
 		Shards: func(bool) int { return 8 },
 		Budget: minutes(2, 10),
